@@ -56,12 +56,12 @@ Qed.
 
 (* ---- each send call with an open window takes at least one byte ---------------------------------- *)
 Lemma send_decreases W0 s k n :
-  Inv W0 s -> 0 < ow s -> 0 < n ->
+  Inv W0 s -> eof s = false -> 0 < ow s -> 0 < n ->
   let '(s', r) := step s (OSend k n) in
   r = Z.min n (Z.min (ow s) (omp s - 64)) /\ 0 < r <= n /\ ow s' = ow s - r /\
   obox s' = obox s ++ [mk_msg k r] /\ g_res s' = g_res s + r.
 Proof.
-  intros HI Hw Hn. pose proof (i_omp _ _ HI) as i_omp0. unfold step.
+  intros HI He Hw Hn. pose proof (i_omp _ _ HI) as i_omp0. unfold step. rewrite He.
   destruct (send_must_wait (ow s)) eqn:E.
   { unfold send_must_wait in E. lia. }
   destruct (send_alloc (ow s) (omp s) n) as [size ow'] eqn:Ha.
@@ -222,13 +222,39 @@ Definition nosend (o : op) : Prop := match o with OSend _ _ => False | _ => True
 
 Lemma step_gres s o : nosend o -> g_res (fst (step s o)) = g_res s.
 Proof.
-  destruct o as [k n|i| |err n|i| ]; unfold step; intros H; try contradiction.
+  destruct o as [k n|i| |err n|i| |b| ]; unfold step; intros H; try contradiction; try reflexivity.
   - destruct (nth_error _ _); auto.
   - destruct (dwire s) as [|[l|c l] r]; auto.
     destruct (ext_discarded c); [destruct ext_discard_credits; [destruct (credit s l) as [[? ?] ?]|]|destruct (comb s)]; auto.
   - destruct (_ =? 0); [auto|]. destruct (credit _ _) as [[? ?] ?]. auto.
   - destruct (nth_error _ _); auto.
   - destruct (awire s); auto.
+Qed.
+
+Definition noshut (o : op) : Prop := match o with OShutW => False | _ => True end.
+
+Lemma step_eof s o : noshut o -> eof (fst (step s o)) = eof s.
+Proof.
+  destruct o as [k n|i| |err n|i| |b| ]; unfold step; intros H; try contradiction; try reflexivity.
+  - destruct (eof s) eqn:E; [exact E|]. destruct (send_must_wait _); [exact E|].
+    destruct (send_alloc _ _ _). destruct (send_nothing _); reflexivity.
+  - destruct (nth_error _ _); auto.
+  - destruct (dwire s) as [|[l|c l] r]; auto.
+    destruct (ext_discarded c); [destruct ext_discard_credits; [destruct (credit s l) as [[? ?] ?]|]|destruct (comb s)]; auto.
+  - destruct (_ =? 0); [auto|]. destruct (credit _ _) as [[? ?] ?]. auto.
+  - destruct (nth_error _ _); auto.
+  - destruct (awire s); auto.
+Qed.
+
+Lemma settle_eof s : eof (settle s) = eof s.
+Proof.
+  unfold settle, drain_adj, flush_adj, read_all, drain_data, flush_out.
+  rewrite (run_repeat_frame eof ODeliverAdj) by (intros; now apply step_eof).
+  rewrite (run_repeat_frame eof (OEmitAdj 0)) by (intros; now apply step_eof).
+  rewrite !step_eof by exact I.
+  rewrite (run_repeat_frame eof ODeliver) by (intros; now apply step_eof).
+  rewrite (run_repeat_frame eof (OEmit 0)) by (intros; now apply step_eof).
+  reflexivity.
 Qed.
 
 Lemma settle_gres s : g_res (settle s) = g_res s.
@@ -255,32 +281,33 @@ Proof.
 Qed.
 
 Lemma round_spec W0 s k n :
-  Inv W0 s -> thr s < W0 -> settled s -> 0 < n ->
+  Inv W0 s -> thr s < W0 -> settled s -> eof s = false -> 0 < n ->
   let '(s', p') := round k n s in
-  Inv W0 s' /\ thr s' = thr s /\ settled s' /\ 0 <= p' < n /\
+  Inv W0 s' /\ thr s' = thr s /\ settled s' /\ eof s' = false /\ 0 <= p' < n /\
   p' = n - Z.min n (Z.min (ow s) (omp s - 64)) /\ g_res s' = g_res s + (n - p').
 Proof.
-  intros HI Ht Hs Hn. pose proof (settled_open _ _ HI Ht Hs) as Hw.
-  unfold round. pose proof (send_decreases W0 s k n HI Hw Hn) as Hd.
+  intros HI Ht Hs He Hn. pose proof (settled_open _ _ HI Ht Hs) as Hw.
+  unfold round. pose proof (send_decreases W0 s k n HI He Hw Hn) as Hd.
   pose proof (step_inv W0 s (OSend k n) HI ltac:(cbn; lia)) as HI1.
+  pose proof (step_eof s (OSend k n) I) as He1.
   destruct (step_const s (OSend k n)) as (Ho1 & Ht1 & _).
-  destruct (step s (OSend k n)) as [s1 r]. cbn [fst] in HI1, Ho1, Ht1.
+  destruct (step s (OSend k n)) as [s1 r]. cbn [fst] in HI1, Ho1, Ht1, He1.
   destruct Hd as (Hr & Hrn & _ & _ & Hg).
   destruct (settle_spec W0 s1 HI1) as (I' & S' & T' & O').
-  pose proof (settle_gres s1) as G'.
-  split; [exact I'|]. split; [congruence|]. split; [exact S'|]. split; [lia|]. split; lia.
+  pose proof (settle_gres s1) as G'. pose proof (settle_eof s1) as E'.
+  split; [exact I'|]. split; [congruence|]. split; [exact S'|]. split; [congruence|]. split; [lia|]. split; lia.
 Qed.
 
 Lemma transfer_completes_inv W0 k : forall fuel n s,
-  Inv W0 s -> thr s < W0 -> settled s -> 0 <= n -> n <= Z.of_nat fuel ->
+  Inv W0 s -> thr s < W0 -> settled s -> eof s = false -> 0 <= n -> n <= Z.of_nat fuel ->
   let '(s', p) := transfer fuel k n s in p = 0 /\ Inv W0 s' /\ settled s' /\ g_res s' = g_res s + n.
 Proof.
-  induction fuel as [|f IH]; intros n s HI Ht Hs Hn Hf.
+  induction fuel as [|f IH]; intros n s HI Ht Hs He Hn Hf.
   - cbn. split; [lia|]. split; [assumption|]. split; [assumption|lia].
   - cbn [transfer]. destruct (n <=? 0) eqn:E; [split; [lia|]; split; [assumption|]; split; [assumption|lia]|].
-    pose proof (round_spec W0 s k n HI Ht Hs ltac:(lia)) as Hr.
-    destruct (round k n s) as [s' p']. destruct Hr as (I' & T' & S' & Hp & _ & G').
-    specialize (IH p' s' I' ltac:(lia) S' ltac:(lia) ltac:(lia)).
+    pose proof (round_spec W0 s k n HI Ht Hs He ltac:(lia)) as Hr.
+    destruct (round k n s) as [s' p']. destruct Hr as (I' & T' & S' & E' & Hp & _ & G').
+    specialize (IH p' s' I' ltac:(lia) S' E' ltac:(lia) ltac:(lia)).
     destruct (transfer f k p' s') as [s'' p'']. destruct IH as (A & B & C & D).
     split; [assumption|]. split; [assumption|]. split; [assumption|lia].
 Qed.
@@ -288,10 +315,11 @@ Qed.
 Lemma transfer_completes W P dmp c ops k n :
   1 <= W -> Forall op_wf ops -> 0 <= n ->
   let s0 := settle (run (init2 W P dmp c) ops) in
+  eof s0 = false ->
   let '(s', p) := transfer (Z.to_nat n) k n s0 in
   p = 0 /\ settled s' /\ emitted s' = emitted s0 + n /\ g_cons s' + g_disc s' = g_cons s0 + g_disc s0 + n.
 Proof.
-  intros HW Hwf Hn s0. assert (H0 : 0 <= W) by lia.
+  intros HW Hwf Hn s0 He0. assert (H0 : 0 <= W) by lia.
   pose proof (run_inv W ops _ (init_inv W P W dmp c H0 H0) Hwf) as HI.
   destruct (settle_spec W _ HI) as (I0 & S0 & T0 & _). fold s0 in I0, S0, T0.
   destruct (run_const ops (init2 W P dmp c)) as (_ & Ht & _).
@@ -299,7 +327,7 @@ Proof.
   destruct (threshold_spec W H0) as [_ Hlt]. specialize (Hlt HW).
   assert (Hthr : thr s0 < W).
   { unfold s0, init2. rewrite T0, Ht. exact Hlt. }
-  pose proof (transfer_completes_inv W k (Z.to_nat n) n s0 I0 Hthr S0 Hn ltac:(lia)) as Hc.
+  pose proof (transfer_completes_inv W k (Z.to_nat n) n s0 I0 Hthr S0 He0 Hn ltac:(lia)) as Hc.
   destruct (transfer (Z.to_nat n) k n s0) as [s' p] eqn:E.
   destruct Hc as (Hp & I' & S' & G'). split; [exact Hp|]. split; [exact S'|].
   (* byte accounting: what was pending has been emitted, delivered and consumed / discarded *)
